@@ -6,6 +6,9 @@ use crate::macsuites::*;
 use crate::util::*;
 
 pub fn eval(op: &str) -> String {
+    if let Some(r) = crate::adevgen::eval_dev_any(op) {
+        return r;
+    }
     let outs = run_history(op);
     format!("{} ## oracle={}", outs.join(" ; "), oracle_c12(op, &outs))
 }
@@ -92,5 +95,7 @@ pub fn run(tier: &str, seed: u64, dir: &str) {
             sink.case(&op, &eval(&op), if uplinks > 200 { "long-history" } else { "history" }, true);
         }
     }
+    // device level: both front-ends with the scripted radio (see adevgen::add_dev_classes)
+    crate::adevgen::add_dev_classes("C12", &mut rng, &mut sink, thorough, eval);
     sink.finish(dir, "per region: histories of 20..400 uplinks with rare accepted (confirmed/unconfirmed) and rejected downlinks, ADR toggles and application data-rate overrides, sessions restored with ADR counters at 0/60/63/64/95/96/127/200; every uplink header and data rate is compared with a 5-field reference automaton (ack owed, ADR on, uplinks since last accepted downlink, data rate, address). Non-trivial = every case.", false, serde_json::json!({}));
 }
